@@ -7,6 +7,11 @@
 #include "stub_hmac_model.h"
 
 unsigned stub_hmac_free_calls;
+/* C13: the HKDF source is compiled with ascon_clean renamed to this ghost wrapper, which records the non-elidable wipes */
+static unsigned verif_clean_calls, verif_clean_hkdf_state;
+void ascon_clean(void *buf, unsigned size);
+void verif_ghost_clean(void *buf, unsigned size)
+{ verif_clean_calls++; if (__CPROVER_POINTER_OFFSET(buf) == 0 && __CPROVER_OBJECT_SIZE(buf) == size && size == sizeof(HKDF_T)) verif_clean_hkdf_state++; ascon_clean(buf, size); }
 #if HM_VARIANT == 0
 HM_STUBS(ascon_hmac, ascon_hmac_state_t)
 #else
@@ -77,7 +82,9 @@ void h_hkdf(void)
 #endif
         out = malloc(outlen > 8160 ? 1 : outlen); __CPROVER_assume(out != 0);
         if (outlen > 8160) out[0] = 0x5a;
+        verif_clean_calls = 0; verif_clean_hkdf_state = 0;
         r = HKDF_FN()(out, outlen, key, keylen, salt, saltlen, info, infolen);
+        __CPROVER_assert(outlen > 8160 || verif_clean_hkdf_state == 1, "C13: the one-shot wipes its whole HKDF state (PRK, last block) with the non-elidable ascon_clean before returning");
         __CPROVER_assert(r == (outlen > 8160 ? -1 : 0), "one-shot: -1 exactly when more than 255 blocks of 32 bytes are requested");
         __CPROVER_assert(outlen <= 8160 || out[0] == 0x5a, "one-shot: nothing is written when the request is refused");
 #if defined(VERIF_OUTLEN) && VERIF_OUTLEN <= 8160
